@@ -199,6 +199,24 @@ fn gen_config(rng: &mut Rng, need_hints: bool) -> Config {
         cache_seed.push(rr(&below(&dn("cachedonly."), &[l]), a(Ipv4Addr::new(172, 16, 200, 1)), 300));
         cache_seed.push(rr(&below(&dn("cachedonly."), &[l]), txt(b"cache:only"), 300));
     }
+    // cache-only aliases into names the zones own, the cache also holding its own idea of what the target has: an
+    // earlier upstream reply "x CNAME t, t A ..." leaves exactly that behind.  What is said about t is still the zone's.
+    for l in LABELS {
+        let owners: Vec<&FlatRec> = flats.iter().flat_map(|f| f.recs.iter()).filter(|r| !r.wildcard).collect();
+        if owners.is_empty() || rng.chance(1, 3) {
+            continue;
+        }
+        let target = if rng.chance(3, 4) { rng.pick(&owners).owner.clone() } else { below(&rng.pick(&flats).apex.clone(), &["nope"]) };
+        if target.len > 200 {
+            continue;
+        }
+        cache_seed.push(rr(&below(&dn("aliasonly."), &[l]), cname(&target), 300));
+        cache_seed.push(rr(&target, a(Ipv4Addr::new(172, 16, 250, rng.below(4) as u8)), 300));
+        if rng.bool() {
+            cache_seed.push(rr(&target, aaaa(Ipv6Addr::new(0xfd16, 250, 0, 0, 0, 0, 0, rng.below(4) as u16)), 300));
+            cache_seed.push(rr(&target, txt(b"cache:alias-target"), 300));
+        }
+    }
     Config {
         flats,
         zones,
@@ -295,6 +313,8 @@ fn question_names(rng: &mut Rng, cfg: &Config) -> Vec<DomainName> {
     v.retain(|n| n.len <= 200);
     rng.shuffle(&mut v);
     v.truncate(14);
+    v.push(below(&dn("aliasonly."), &[*rng.pick(&LABELS)]));
+    v.push(below(&dn("aliasonly."), &[*rng.pick(&LABELS)]));
     v
 }
 
